@@ -164,6 +164,7 @@ func ShrinkC47(pl any) []any {
 	add := func(f func(q *Plan)) {
 		q := clonePlan(p)
 		f(q)
+		q.Confirm = 2
 		out = append(out, q)
 	}
 	// fewer operations
